@@ -120,7 +120,8 @@ assume-func github.com/iotaledger/hive.go/runtime/syncutils.Counter.WaitIsZero(c
 
 func WorkerPool.dispatcher
   opt thread
-  requires w != nil && w.Queue != nil && w.PendingTasksCounter != nil && w.dispatcherChan != nil && !closed(w.dispatcherChan) && unlocked(w.mutex)
+  requires w != nil && w.Queue != nil && w.PendingTasksCounter != nil && w.dispatcherChan != nil && !closed(w.dispatcherChan)
+  requires unlocked(w.mutex)
   modifies chans, ghost(lastrun), ghost(lastsize)
   loop 1 invariant unlocked(w.mutex) && !closed(w.dispatcherChan)
   ghost after call WorkerPool.IsRunning: lastrun = result
@@ -128,7 +129,7 @@ func WorkerPool.dispatcher
   ghost before call Counter.WaitIsZero: assert !lastrun && lastsize == 0
 
 func WorkerPool.startDispatcher
-  requires w != nil && w.Queue != nil && w.PendingTasksCounter != nil && unlocked(w.mutex)
+  requires w != nil && w.Queue != nil && w.PendingTasksCounter != nil
   modifies w.dispatcherChan, chans
   ensures w.dispatcherChan != nil && !closed(w.dispatcherChan)
 
@@ -144,4 +145,16 @@ func WorkerPool.startWorkers
   requires w != nil
   modifies everything
   loop 1 invariant w != nil && (forall x Int :: sel(sync.wgcount, x) >= 0)
+-- Start: a pool that is started again first waits until the previous life is over (ShutdownComplete: every worker of the
+-- previous life has returned, hence the previous dispatcher has closed its channel) - before the pool says it is running,
+-- before the dispatch channel is replaced and before new workers are counted in the same WaitGroup
+func WorkerPool.Start
+  requires w != nil && w.Queue != nil && w.PendingTasksCounter != nil && unlocked(w.mutex)
+  modifies everything
+  ghost local waited Bool      -- ShutdownComplete.Wait has returned in this call (ghost)
+  ghost at entry: waited = false
+  ghost after call WaitGroup.Wait: waited = true
+  ghost before call WorkerPool.startDispatcher: assert waited && w.isRunning
+  ghost before call WorkerPool.startWorkers: assert waited && w.isRunning
+  ensures unlocked(w.mutex) && r0 == w
 @*/
